@@ -53,6 +53,21 @@ def main(tier, replay=None):
                                                               "OverIssue": True}, ["StepsExact", "NeverTooMany"], [], expect_violation=True)
     if res is not None and res["ok"]:
         sc.chk.machinery("Infretis.tla with OverIssue = TRUE is not refuted: StepsExact / NeverTooMany do not see a job left in flight")
+    # the counting argument for EVERY worker count, step count and restart point: inductive invariant discharged by Apalache
+    from harness import tlc
+    ind = []
+    for label, args, want in (("Init => IndInv", ["--cinit=ConstInit", "--init=Init", "--inv=IndInv", "--length=0"], "ok"),
+                              ("IndInv /\\ Next => IndInv'", ["--cinit=ConstInit", "--init=IndInit", "--inv=IndInv", "--length=1"], "ok"),
+                              ("OverIssue (code before 7cc4d53): IndInv not inductive", ["--cinit=ConstInitOld", "--init=IndInit", "--inv=IndInv", "--length=1"], "cex"),
+                              ("OverIssue: StepsExact refuted from Init", ["--cinit=ConstInitOld", "--init=Init", "--inv=StepsExact", "--length=8"], "cex")):
+        r = tlc.run_apalache("ApaSteps.tla", args, timeout=600)
+        ind.append({"step": label, "outcome": r["outcome"], "counterexample": r["counterexample"], "wall_s": r["wall_s"]})
+        if want == "ok" and r["outcome"] != "ok":
+            sc.chk.machinery(f"Apalache did not discharge the inductive invariant of ApaSteps.tla ({label}): {r['outcome']}\n{r['tail']}")
+        if want == "cex" and not r["counterexample"]:
+            sc.chk.machinery(f"Apalache found no counterexample for the weakened ApaSteps.tla ({label}): {r['outcome']}\n{r['tail']}")
+    sc.chk.cov["apalache_inductive_invariant"] = {"module": "ApaSteps.tla", "constants": "W >= 1, Steps >= C0 >= 0 (symbolic, unbounded integers)", "steps": ind}
+    print(f"  Apalache, ApaSteps.tla for symbolic W, Steps, C0: {[(i['step'][:28], i['outcome']) for i in ind]}", flush=True)
     sc.replay_behaviours("N3W2S4_more", {"N": 3, "Workers": 2, "Steps": 4, "MaxPn": 14, "MaxRestarts": 2, "MoreSteps": 2}, 120 if q else 1200, 24)
     sc.replay_behaviours("N4W3S5", {"N": 4, "Workers": 3, "Steps": 5, "MaxPn": 16}, 80 if q else 1200, 20)
     sc.random_runs(S.endgame_specs(sc.chk.seed + 91, 12 if q else 90))
